@@ -630,6 +630,11 @@ SLOTS.update({
     ('Delete', 'targets@sub'): ('del s[a]', [('body', 0), ('targets', 0), ('slice', None)]),
     ('AugAssign', 'value@tuple'): ('x += a, b', V),
     ('AnnAssign', 'value@tuple'): ('x: int = a, b', V),
+    ('FormattedValue', 'value'): ('x = f"{a}"', V + [('values', 0), ('value', None)]),
+    ('FormattedValue', 'value@text-before'): ('x = f"naïve {a} b"', V + [('values', 1), ('value', None)]),
+    ('FormattedValue', 'value@spec'): ('x = f"{a:>5}"', V + [('values', 0), ('value', None)]),
+    ('FormattedValue', 'value@conv'): ('x = f"é {a!r} {b}"', V + [('values', 1), ('value', None)]),
+    ('FormattedValue', 'value@nested-spec'): ('x = f"{a:{b}}"', V + [('values', 0), ('format_spec', None), ('values', 0), ('value', None)]),
     ('Global', 'none'): ('x = a', V),
 })
 del SLOTS[('Global', 'none')]
